@@ -213,7 +213,7 @@ func c04() []*Ob {
 				}
 				var ids *ssa.Parameter
 				for _, p := range fn.Params {
-					if p.Name() == "ids" {
+					if ParamName(p) == "ids" {
 						ids = p
 					}
 				}
